@@ -980,6 +980,29 @@ fn gen_tilt_history(rng: &mut Rng) -> Vec<Vec<Det>> {
     calls
 }
 
+/// slowly moving objects (high IoU with their tracks) whose detection confidences are mixed within a frame and mostly
+/// BELOW the configured minimal confidence: the gate uses max(confidence, min_confidence)
+fn gen_conf_history(rng: &mut Rng) -> Vec<Vec<Det>> {
+    let nobj = 2 + rng.below(3) as usize;
+    let frames = 4 + rng.below(5) as usize;
+    let confs = [0.05f32, 0.1, 0.2, 0.4, 1.0];
+    let mut objs: Vec<(f32, f32, f32, f32, f32)> = vec![]; // x, y, vx, vy, size
+    for i in 0..nobj {
+        let size = 30.0 + rng.below(3) as f32 * 10.0;
+        objs.push((100.0 + 200.0 * i as f32, 100.0 + 40.0 * (i % 2) as f32, rng.range(-12, 12) as f32 * 0.25, rng.range(-8, 8) as f32 * 0.25, size));
+    }
+    let mut calls = vec![];
+    for fr in 0..frames {
+        let mut dets: Vec<Det> = vec![];
+        for o in &objs {
+            dets.push((o.0 + o.2 * fr as f32, o.1 + o.3 * fr as f32, o.4, o.4, *rng.pick(&confs), None));
+        }
+        rng.shuffle(&mut dets);
+        calls.push(dets);
+    }
+    calls
+}
+
 /// two or three still objects far apart; object 0 is not detected for `gap` consecutive frames while the others keep
 /// the scene's epoch advancing, then it is detected again at the same place: it must continue its track iff
 /// gap <= max_idle (whatever the history length is)
@@ -1270,6 +1293,15 @@ fn main() {
                 let thr = *rng.pick(&[0.3f32, 0.25, 0.5]);
                 let api = if k % 3 == 2 { "batch" } else { "sort" };
                 run_history_x("iou", thr, 0.05, 2, 1.0 / 20.0, 1.0 / 160.0, api, 1 + k % 3, &calls);
+            }
+            // ---- minimal confidence: IoU x max(confidence, min_confidence) >= threshold with min_confidence well above the
+            //      detections' confidences (the default 0.05 can never lift a pair over the gate)
+            for k in 0..(a.n / 6 + 6) {
+                let calls = gen_conf_history(&mut rng);
+                let min_conf = *rng.pick(&[0.3f32, 0.5, 0.6]);
+                let thr = *rng.pick(&[0.2f32, 0.25, 0.3, 0.4]);
+                let api = if k % 3 == 1 { "batch" } else { "sort" };
+                run_history_x("iou", thr, min_conf, 2, 1.0 / 20.0, 1.0 / 160.0, api, 1, &calls);
             }
             // ---- expiry: only tracks idle for <= max_idle epochs may be continued, independently of the history length;
             //      both entry points, bbox_history != max_idle in both orders, gaps below / between / above the two values
